@@ -945,7 +945,10 @@ fn miri_probe(args: &Args, ws: &str, label: &str, target: Option<&str>, lean: &s
 fn alarm_path_selftest(args: &Args) -> Result<Value, String> {
     let me = std::env::current_exe().map_err(|e| e.to_string())?;
     let mut all = Vec::new();
-    for (level, want) in [(1u8, "E1"), (2u8, "D1")] {
+    // the read-phase plant surfaces as D1 (a value read back) or, in a history whose fault-free pass asserts
+    // nothing about the bare records (reader Skip, or a decode that only propagated a remaining_len error),
+    // as D6 (the value read back by the recovery step): both are the planted error
+    for (level, want, also) in [(1u8, "E1", "E1"), (2u8, "D1", "D6")] {
         let dir = format!("{}/selftest-{}-{}", args.replay_dir, std::process::id(), level);
         let evp = format!("{}/evidence.json", dir);
         std::fs::create_dir_all(&dir).map_err(|e| e.to_string())?;
@@ -959,16 +962,18 @@ fn alarm_path_selftest(args: &Args) -> Result<Value, String> {
         let doc: Value = std::fs::read_to_string(&path).ok().and_then(|t| serde_json::from_str(&t).ok()).unwrap_or(Value::Null);
         // replay it once more ourselves, in yet another process
         let again = std::process::Command::new(&me).args(["replay", &path]).output().map_err(|e| e.to_string())?;
-        let again_ok = again.status.code() == Some(1) && String::from_utf8_lossy(&again.stdout).contains(&format!("REPLAY-VIOLATION check={}", want));
+        let got_id = doc.get("check").and_then(|c| c.as_str()).unwrap_or("").to_string();
+        let class_ok = got_id == want || got_id == also;
+        let again_ok = again.status.code() == Some(1) && String::from_utf8_lossy(&again.stdout).contains(&format!("REPLAY-VIOLATION check={}", got_id));
         let res = json!({
             "planted": if level == 1 { "write phase: big-endian reference model" } else { "read phase: model expects every bare value with its lowest bit flipped" },
-            "histories": 300, "child_exit": out.status.code(), "violation_line": line.is_some(), "expected_check_id": want,
+            "histories": 300, "child_exit": out.status.code(), "violation_line": line.is_some(), "expected_check_id": if want == also { json!(want) } else { json!([want, also]) },
             "check_id": doc.get("check"), "records_after_minimisation": doc.pointer("/trace/records").and_then(|r| r.as_array()).map(|a| a.len()),
             "records_before_minimisation": doc.pointer("/info/minimised/records_before"),
             "replayed_in_a_fresh_process": again_ok,
         });
         let _ = std::fs::remove_dir_all(&dir);
-        if out.status.code() != Some(1) || line.is_none() || doc.get("check").and_then(|c| c.as_str()) != Some(want) || !again_ok {
+        if out.status.code() != Some(1) || line.is_none() || !class_ok || !again_ok {
             return Err(format!("alarm-path self-test failed: {}", res));
         }
         all.push(res);
